@@ -646,3 +646,231 @@ Proof. intros [F _ _]. rewrite (fr_trace _ _ F). reflexivity. Qed.
 Lemma took_bound s e r s' : Took s e r s' -> bound s' = bound s /\ incl s' = incl s /\ rep s' = rep s
                                            /\ ps s' = ps s /\ strat s' = strat s /\ worker s' = worker s.
 Proof. intros [F _ _]. destruct F. unfold popped in *; ssimpl. auto 10. Qed.
+
+(* ------------------------------------------------------------------ *)
+(** * Time order of the executed-event log *)
+
+(* [Mono s s']: s' extends the log of s by entries whose clocks lie between the
+   two clocks and do not decrease (the log is newest first). *)
+Definition later (a b : ev * Z) : Prop := snd b <= snd a.
+
+Definition Mono (s s' : sim) : Prop :=
+  clock s <= clock s' /\
+  exists new, trace s' = new ++ trace s
+    /\ Forall (fun ec => clock s <= snd ec <= clock s') new
+    /\ StronglySorted later new.
+
+Lemma Mono_refl s : Mono s s.
+Proof. split; [lia|]. exists []. repeat split; constructor. Qed.
+
+Lemma sorted_app {A} (R : A -> A -> Prop) l1 l2 :
+  StronglySorted R l1 -> StronglySorted R l2 ->
+  (forall a b, In a l1 -> In b l2 -> R a b) -> StronglySorted R (l1 ++ l2).
+Proof.
+  induction l1 as [|x r IH]; cbn [app]; auto.
+  intros H1 H2 H. inversion H1 as [|? ? Hr Hx]; subst. constructor.
+  - apply IH; auto. intros; apply H; auto. right; auto.
+  - apply Forall_app. split; auto. apply Forall_forall. intros b Hb. apply H; auto. left; auto.
+Qed.
+
+Lemma Mono_trans a b c : Mono a b -> Mono b c -> Mono a c.
+Proof.
+  intros [L1 [n1 [E1 [F1 S1]]]] [L2 [n2 [E2 [F2 S2]]]]. split; [lia|].
+  exists (n2 ++ n1). split; [rewrite E2, E1, app_assoc; reflexivity|]. split.
+  - apply Forall_app. split; eapply Forall_impl; try eassumption; cbn; intros; lia.
+  - apply sorted_app; auto. intros x y Hx Hy. unfold later.
+    rewrite Forall_forall in F1, F2. specialize (F1 _ Hy). specialize (F2 _ Hx). lia.
+Qed.
+
+Lemma Mono_same s t : trace t = trace s -> clock s <= clock t -> Mono s t.
+Proof. intros E L. split; auto. exists []. repeat split; auto; constructor. Qed.
+
+Lemma took_mono s e r s' : Inv s -> pend s = e :: r -> Took s e r s' -> Mono s s'.
+Proof.
+  intros HI Hp T. pose proof (inv_ge _ HI) as G. rewrite Hp in G. inversion G; subst.
+  rewrite (took_clock _ _ _ _ T). split; auto.
+  exists [(e, ev_time e)]. rewrite (took_trace _ _ _ _ T). repeat split.
+  - constructor; [cbn; lia|constructor].
+  - constructor; constructor.
+Qed.
+
+(* ------------------------------------------------------------------ *)
+(** * The run loop as the sequence of events it takes *)
+
+Inductive runs (p : program) : sim -> list ev -> sim -> Prop :=
+| runs_nil s : runs p s [] s
+| runs_cons s e r evs s' :
+    running s = true -> pend s = e :: r -> beyond s e = false ->
+    runs p (take_event p s e r) evs s' -> runs p s (e :: evs) s'.
+
+Definition head_beyond (s : sim) : Prop :=
+  match pend s with [] => True | e :: _ => beyond s e = true end.
+
+Inductive loop_exit (s1 s' : sim) : Prop :=
+| exit_stopped : running s1 = false -> s' = s1 -> loop_exit s1 s'
+| exit_bound : running s1 = true -> head_beyond s1 -> s' = stop_at_bound s1 -> loop_exit s1 s'
+| exit_fuel : running s1 = true -> s' = raise_flag s1 -> loop_exit s1 s'.
+
+Lemma run_loop_runs p fuel : forall s,
+  exists evs s1, runs p s evs s1 /\ loop_exit s1 (run_loop fuel p s).
+Proof.
+  induction fuel as [|f IH]; intros s; cbn [run_loop].
+  - exists [], s. split; [constructor|]. destruct (running s) eqn:R.
+    + apply exit_fuel; auto.
+    + apply exit_stopped; auto.
+  - destruct (running s) eqn:R.
+    + destruct (pend s) as [|e r] eqn:Hp.
+      * exists [], s. split; [constructor|]. apply exit_bound; auto. unfold head_beyond. rewrite Hp. exact I.
+      * destruct (beyond s e) eqn:B.
+        -- exists [], s. split; [constructor|]. apply exit_bound; auto. unfold head_beyond. rewrite Hp. exact B.
+        -- destruct (IH (take_event p s e r)) as [evs [s1 [H1 H2]]].
+           exists (e :: evs), s1. split; auto. econstructor; eauto.
+    + exists [], s. split; [constructor|]. apply exit_stopped; auto.
+Qed.
+
+Lemma beyond_false_le s e : beyond s e = false -> ev_time e <= bound s.
+Proof.
+  unfold beyond. intros H. apply orb_false_iff in H. destruct H as [H _].
+  destruct (Z.gtb_spec (ev_time e) (bound s)); [discriminate|lia].
+Qed.
+
+Lemma beyond_true_ge s e : beyond s e = true -> bound s <= ev_time e.
+Proof.
+  unfold beyond. intros H. apply orb_true_iff in H. destruct H as [H|H].
+  - destruct (Z.gtb_spec (ev_time e) (bound s)); [lia|discriminate].
+  - apply andb_true_iff in H. destruct H as [H _]. apply Z.eqb_eq in H. lia.
+Qed.
+
+(* a record of everything a sequence of loop passes preserves *)
+Record RunsFacts (s : sim) (evs : list ev) (s' : sim) : Prop := mkRunsFacts {
+  rf_inv : Inv s -> Inv s';
+  rf_acct : Inv s -> Acct s -> Acct s';
+  rf_mono : Inv s -> Mono s s';
+  rf_trace : trace s' = rev (map (fun e => (e, ev_time e)) evs) ++ trace s;
+  rf_bound : bound s' = bound s /\ incl s' = incl s /\ rep s' = rep s /\ ps s' = ps s
+             /\ strat s' = strat s /\ worker s' = worker s;
+  rf_le : Forall (fun e => ev_time e <= bound s) evs;
+  rf_clock : clock s <= bound s -> clock s' <= bound s
+}.
+
+Lemma runs_facts p s evs s' : runs p s evs s' -> RunsFacts s evs s'.
+Proof.
+  induction 1 as [s|s e r evs s' R Hp B H IH].
+  - constructor; auto using Mono_refl; try tauto. constructor.
+  - pose proof (take_event_took p s e r Hp) as T.
+    destruct (took_bound _ _ _ _ T) as (Tb&Ti&Tr&Tp&Ts&Tw).
+    destruct IH as [I A M Tr' Bd Le Ck]. constructor.
+    + intros HI. apply I. apply (tk_inv _ _ _ _ T HI).
+    + intros HI HA. apply A; [apply (tk_inv _ _ _ _ T HI)|apply (tk_acct _ _ _ _ T HI HA)].
+    + intros HI. eapply Mono_trans; [eapply took_mono; eauto|]. apply M. apply (tk_inv _ _ _ _ T HI).
+    + rewrite Tr', (took_trace _ _ _ _ T). cbn [map rev]. rewrite <- app_assoc. reflexivity.
+    + destruct Bd as (?&?&?&?&?&?). repeat split; congruence.
+    + constructor; [apply beyond_false_le; auto|]. rewrite Tb in Le. auto.
+    + intros _. rewrite Tb in Ck. apply Ck. rewrite (took_clock _ _ _ _ T). apply beyond_false_le; auto.
+Qed.
+
+(** Each executed event is the key-minimum of the pending set at the moment
+    it is taken: for every split of the sequence there is the intermediate
+    state in which the event is the first of a list it is the minimum of. *)
+Lemma runs_split p s evs s' a e b :
+  runs p s evs s' -> evs = a ++ e :: b ->
+  exists sm r, runs p s a sm /\ pend sm = e :: r /\ beyond sm e = false
+               /\ runs p (take_event p sm e r) b s'.
+Proof.
+  intros H. revert a. induction H as [s|s x r evs s' R Hp B H IH]; intros a E.
+  - destruct a; discriminate.
+  - destruct a as [|y a]; cbn [app] in E; inversion E; subst.
+    + exists s, r. repeat split; auto. constructor.
+    + destruct (IH a eq_refl) as [sm [r' [H1 [H2 [H3 H4]]]]].
+      exists sm, r'. repeat split; auto. econstructor; eauto.
+Qed.
+
+Lemma runs_inv p s evs s' : runs p s evs s' -> Inv s -> Inv s'.
+Proof. intros H. apply (rf_inv _ _ _ (runs_facts _ _ _ _ H)). Qed.
+
+Theorem exec_is_minimum p s evs s' a e b :
+  Inv s -> runs p s evs s' -> evs = a ++ e :: b ->
+  exists sm, runs p s a sm /\ In e (pend sm) /\ clock sm <= ev_time e
+             /\ forall x, In x (pend sm) -> ev_le e x.
+Proof.
+  intros HI H E. destruct (runs_split _ _ _ _ _ _ _ H E) as [sm [r [H1 [H2 [H3 H4]]]]].
+  exists sm. pose proof (runs_inv _ _ _ _ H1 HI) as HIm. repeat split; auto.
+  - rewrite H2. left; auto.
+  - pose proof (inv_ge _ HIm) as G. rewrite H2 in G. inversion G; auto.
+  - intros x Hx. rewrite H2 in Hx. apply (sorted_head_min e r); auto.
+    rewrite <- H2. apply (inv_sorted _ HIm).
+Qed.
+
+(* ------------------------------------------------------------------ *)
+(** * Leaving the loop *)
+
+Lemma head_beyond_all s : Inv s -> head_beyond s -> forall e, In e (pend s) -> beyond s e = true.
+Proof.
+  unfold head_beyond. intros HI H e He. pose proof (inv_sorted _ HI) as S.
+  destruct (pend s) as [|x r]; [destruct He|].
+  destruct He as [<-|He]; auto.
+  inversion S as [|? ? _ Hall]; subst. rewrite Forall_forall in Hall. specialize (Hall _ He).
+  unfold ev_lt, ev_ltb, key_ltb, ev_key in Hall. cbn [k_time k_nprio k_id] in Hall.
+  unfold beyond in *. apply orb_true_iff in H. apply orb_true_iff.
+  destruct (Z.eqb_spec (ev_time x) (ev_time e)) as [Q|Q]; cbn [negb] in Hall.
+  - rewrite <- Q. exact H.
+  - apply Z.ltb_lt in Hall. left. destruct H as [H|H].
+    + destruct (Z.gtb_spec (ev_time x) (bound s)); [|discriminate].
+      destruct (Z.gtb_spec (ev_time e) (bound s)); auto; lia.
+    + apply andb_true_iff in H. destruct H as [H _]. apply Z.eqb_eq in H.
+      destruct (Z.gtb_spec (ev_time e) (bound s)); auto; lia.
+Qed.
+
+Lemma stop_at_bound_inv s : Inv s -> head_beyond s -> Inv (stop_at_bound s).
+Proof.
+  intros HI HB. pose proof (head_beyond_all s HI HB) as All. destruct HI as [H1 H2 H3 H4 H5 H6].
+  assert (G : Forall (fun e => bound s <= ev_time e) (pend s)).
+  { apply Forall_forall. intros e He. apply beyond_true_ge. auto. }
+  unfold stop_at_bound. destruct (bound s >=? end_time (set_clock (bound s) s)); constructor; ssimpl; auto.
+Qed.
+
+Lemma stop_at_bound_core s : core_eq s (stop_at_bound s).
+Proof. unfold stop_at_bound. destruct (bound s >=? end_time s); unfold core_eq; ssimpl; auto 10. Qed.
+
+Lemma loop_exit_inv s1 s' : Inv s1 -> loop_exit s1 s' -> Inv s'.
+Proof.
+  intros HI [R ->|R HB ->|R ->]; auto.
+  - apply stop_at_bound_inv; auto.
+  - eapply LogOnly_Inv; [|exact HI]. logonly.
+Qed.
+
+Lemma loop_exit_acct s1 s' : Acct s1 -> loop_exit s1 s' -> Acct s'.
+Proof.
+  intros HA [R ->|R HB ->|R ->]; auto.
+  - eapply Acct_core; [apply stop_at_bound_core|auto].
+  - eapply Acct_core; [|exact HA]. unfold core_eq; ssimpl; auto 10.
+Qed.
+
+Lemma loop_exit_mono s1 s' : clock s1 <= bound s1 -> loop_exit s1 s' -> Mono s1 s'.
+Proof.
+  intros L [R ->|R HB ->|R ->]; try apply Mono_refl.
+  - apply Mono_same.
+    + unfold stop_at_bound. destruct (bound s1 >=? end_time s1); reflexivity.
+    + unfold stop_at_bound. destruct (bound s1 >=? end_time s1); ssimpl; auto.
+  - apply Mono_same; ssimpl; auto; lia.
+Qed.
+
+Lemma run_loop_inv p fuel s : Inv s -> Inv (run_loop fuel p s).
+Proof.
+  intros HI. destruct (run_loop_runs p fuel s) as [evs [s1 [H1 H2]]].
+  eapply loop_exit_inv; [|exact H2]. eapply runs_inv; eauto.
+Qed.
+
+Lemma run_loop_acct p fuel s : Inv s -> Acct s -> Acct (run_loop fuel p s).
+Proof.
+  intros HI HA. destruct (run_loop_runs p fuel s) as [evs [s1 [H1 H2]]].
+  eapply loop_exit_acct; [|exact H2]. apply (rf_acct _ _ _ (runs_facts _ _ _ _ H1)); auto.
+Qed.
+
+Lemma run_loop_mono p fuel s : Inv s -> clock s <= bound s -> Mono s (run_loop fuel p s).
+Proof.
+  intros HI L. destruct (run_loop_runs p fuel s) as [evs [s1 [H1 H2]]].
+  pose proof (runs_facts _ _ _ _ H1) as F.
+  eapply Mono_trans; [apply (rf_mono _ _ _ F HI)|]. apply loop_exit_mono; auto.
+  destruct (rf_bound _ _ _ F) as (->&_). apply (rf_clock _ _ _ F L).
+Qed.
